@@ -142,6 +142,26 @@ func Generate(seed uint64, id, family string) *sdl.Program {
 			}
 			t.Points = append(append([]*sdl.Point{pre}, t.Points...), post)
 		}
+		// requested names written as placeholders (with a default), next to an optional
+		// configuration field whose key is absent
+		p.Sources = []*sdl.Source{{ID: "src0", Kind: "raw", Via: "SetConfigLoader", Doc: map[string]any{"sim": map[string]any{"a": r.n(1, 9)}}}}
+		if r.p(0.5) {
+			p.Sources[0].Doc["pick"] = map[string]any{"name": p.NameOf(pick(r, p.Instances))}
+		}
+		for _, t := range p.Types {
+			if t.Zero || !r.p(0.3) {
+				continue
+			}
+			tgt := pick(r, p.Instances)
+			pt := &sdl.Point{Field: "FP", Kind: sdl.KAny, Sel: sdl.SelName, Name: "${pick.name:" + p.NameOf(tgt) + "}", Optional: r.p(0.5)}
+			if r.p(0.5) {
+				pt.Name = "${pick.absent:" + p.NameOf(tgt) + "}"
+			}
+			t.Points = append(t.Points, pt)
+			if r.p(0.7) {
+				t.Config = append(t.Config, &sdl.Conf{Field: "CP", Menu: "value", Keys: []string{"absent.key"}, GoType: pick(r, []string{"int", "string"}), Optional: true})
+			}
+		}
 		return p
 	case FamSubst:
 		p := genGraph(r, seed, id, family, substKnobs(r))
@@ -296,6 +316,10 @@ func genGraph(r rng, seed uint64, id, family string, k Knobs) *sdl.Program {
 			tgt := pick(r, p.Instances)
 			if tgt != i {
 				i.InitLookups = append(i.InitLookups, tgt.ID)
+				// sometimes the lookup is mutual: a cycle made of lookups only
+				if tt := p.TypeByName(tgt.Type); (tt.Init || tt.APS) && r.p(0.3) {
+					tgt.InitLookups = append(tgt.InitLookups, i.ID)
+				}
 			}
 		}
 	}
